@@ -276,7 +276,7 @@ theorem fr_handleLogon (s : Sess) (m : InMsg) : Fr s (handleLogon s m).1 := by
     | none =>
       simp only []
       generalize hs3 : (if ((if s2.cfg.initiator = true then false else s2.cfg.resetOnLogon) || logonResetFlag m && !s2.sentReset) = true
-          then s2.storeReset else s2) = s3
+          then dropAndReset s2 else s2) = s3
       have h3 : Fr s s3 := by rw [← hs3]; fr_peel
       have hv2 := fr_verifySelect s3 m false true false
       generalize verifySelect s3 m false true false = r2 at hv2
